@@ -98,14 +98,14 @@ pub fn audit_table(searcher: &Searcher, rs: &mut RefSearch, tree: &[Pos], stats:
             let aborted = searcher.verif.aborted_store_keys.contains(&e.hash_key);
             return Err(Failure::new(
                 if aborted { "false-cached-claim-stored-after-deadline" } else { "false-cached-claim" },
-                json!({"context": ctx, "position": q.fen(0,1), "entry": {"depth": e.depth, "bound": bound_name(&e.bounds), "eval": e.eval, "move": e.best_move.map(|m| m.to_algebraic())},
+                json!({"context": ctx, "position": eng::fen(&q), "entry": {"depth": e.depth, "bound": bound_name(&e.bounds), "eval": e.eval, "move": e.best_move.map(|m| m.to_algebraic())},
                        "reference_value_at_that_depth": show(v), "stored_after_deadline": aborted}),
             ));
         }
         if let Some(m) = e.best_move {
             let uci = m.to_algebraic();
             if q.find_uci(&uci).is_none() {
-                return Err(Failure::new("cached-move-illegal", json!({"context": ctx, "position": q.fen(0,1), "move": uci})));
+                return Err(Failure::new("cached-move-illegal", json!({"context": ctx, "position": eng::fen(&q), "move": uci})));
             }
         }
     }
@@ -157,8 +157,14 @@ fn check(bytes: &[u8], stats: &mut Stats) -> Verdict {
     let (p, kind) = gen::g_small(&mut s);
     let men = p.men();
     let (d, fixed) = choose_depth(&mut s, men);
+    judge(&p, d, fixed, kind, stats)
+}
+
+/// The oracle for one (position, depth, configuration).
+pub fn judge(p: &Pos, d: u8, fixed: bool, kind: &str, stats: &mut Stats) -> Verdict {
+    let p = p.clone();
     let cfg = if fixed { "fixed" } else { "iterative" };
-    let fen = p.fen(0, 1);
+    let fen = eng::fen(&p);
     let mut rs = RefSearch::new(REF_CAP.with(|c| c.get()));
     let v = match rs.v(&p, d) {
         Ok(v) => v,
@@ -265,7 +271,14 @@ pub fn run(tier: Tier, seed: u64, known: &Known) -> PropRun {
     run
 }
 
-pub fn replay(_part: &str, bytes: &[u8], _case: &Value, stats: &mut Stats) -> Verdict {
+pub fn replay(_part: &str, bytes: &[u8], case: &Value, stats: &mut Stats) -> Verdict {
     REF_CAP.with(|c| c.set(5_000_000));
+    // structural replay: (FEN, depth, configuration) as saved in the case
+    let c = case.get("context").unwrap_or(case);
+    if let (Some(fen), Some(d), Some(cfg)) = (c.get("fen").and_then(|x| x.as_str()), c.get("depth").and_then(|x| x.as_u64()), c.get("config").and_then(|x| x.as_str())) {
+        if let Some(p) = eng::pos_from_saved_fen(fen) {
+            return judge(&p, d as u8, cfg == "fixed", "replay", stats);
+        }
+    }
     check(bytes, stats)
 }
